@@ -20,12 +20,21 @@ Proof.
     right; subst d; split; try discriminate; intros u0 Hu; discriminate.
 Qed.
 
+Lemma lex_number_digits c u :
+  is_digit c = true -> c <> 48 -> lex_number (c :: bytes_of_uint u) = Some (c :: bytes_of_uint u, []).
+Proof.
+  intros Hd Hz. unfold lex_number, lex_sign.
+  assert (H45 : (c =? 45) = false).
+  { apply N.eqb_neq. intros ->. discriminate Hd. }
+  rewrite H45. cbn [take_digits]. rewrite Hd, take_digits_uint.
+  assert (H48 : (c =? 48) = false) by (apply N.eqb_neq; exact Hz).
+  rewrite H48. cbn [andb lex_frac lex_exp app]. rewrite List.app_nil_r. reflexivity.
+Qed.
+
 Lemma render_dec_number n : number_text (render_dec n).
 Proof.
   unfold number_text, render_dec. set (d := N.to_uint n).
   destruct (unorm_shape d (to_uint_normal n)) as [-> | [Hnn Hnz]]; [reflexivity|].
-  unfold lex_number.
   destruct d as [|u|u|u|u|u|u|u|u|u|u]; try congruence; try (exfalso; exact (Hnz u eq_refl));
-    cbn [bytes_of_uint]; cbn [take_digits is_digit N.leb N.compare Pos.compare Pos.compare_cont andb];
-    rewrite take_digits_uint; cbn; rewrite List.app_nil_r; reflexivity.
+    cbn [bytes_of_uint]; apply lex_number_digits; try reflexivity; discriminate.
 Qed.
